@@ -938,3 +938,10 @@ mod tests {
         }
     }
 }
+
+/// Verification hooks for the roto-filter property C10 (feature
+/// `verif-hooks`, add-only); a child module because `Processor` and the
+/// `BgpSession` trait are private to this module.
+#[cfg(feature = "verif-hooks")]
+#[path = "verif_hooks_c10.rs"]
+pub mod verif_hooks_c10;
